@@ -237,7 +237,8 @@ func vfsC23Run(t *testing.T, r *vfRand, n int, strict bool) {
 			t.Fatalf("StreamSearch(%s): %v", q.desc, err)
 		}
 		lopts := &zoekt.ListOptions{Field: zoekt.RepoListFieldRepos}
-		if r.Chance(40) {
+		fieldMap := r.Chance(40)
+		if fieldMap {
 			lopts.Field = zoekt.RepoListFieldReposMap
 		}
 		rl, err := srch.List(cx.ctx, q.q, lopts)
@@ -287,7 +288,17 @@ func vfsC23Run(t *testing.T, r *vfRand, n int, strict bool) {
 			}
 			ofiles = cList(xs)
 		}
-		coq := cTuple(cBool(strict), cZ(cx.code), cList(shs), cTuple(ofiles, vfsPairs(w, res.RepoURLs), vfsPairs(w, res.LineFragments)))
+		var lnames, lids []uint64
+		for _, e := range rl.Repos {
+			lnames = append(lnames, w.id(e.Repository.Name))
+		}
+		for id := range rl.ReposMap {
+			lids = append(lids, uint64(id))
+		}
+		sort.Slice(lnames, func(a, b int) bool { return lnames[a] < lnames[b] })
+		sort.Slice(lids, func(a, b int) bool { return lids[a] < lids[b] })
+		lobs := cTuple(cBool(fieldMap), cNList(lnames), cNList(lids), cN(uint64(rl.Stats.Documents)))
+		coq := cTuple(cBool(strict), cZ(cx.code), cList(shs), cTuple(ofiles, vfsPairs(w, res.RepoURLs), vfsPairs(w, res.LineFragments)), lobs)
 		foreign := 0
 		for _, rp := range w.repos {
 			if !allowed(rp) {
